@@ -105,6 +105,11 @@ def _component_dropped(f, p, fld):
                     deeper=[e for e in pl["p"] if isinstance(e,dict) and "f" in e]
                     if pl["l"] in whole and not deeper or (pl["l"] not in whole and len(deeper)==1):
                         whole.add(lhs["l"]); changed=True
+                if rv["k"] in ("use",) and pl and not pl["p"] and not lhs["p"] and pl["l"] not in whole:
+                    # the tuple the component was packed into is moved as a whole
+                    for (cl, ci) in list(comps):
+                        if cl == pl["l"] and cl != p and (lhs["l"], ci) not in comps:
+                            comps.add((lhs["l"], ci)); changed=True
                 if rv["k"]=="agg" and rv.get("agg")=="tuple" and not lhs["p"]:
                     for i,op in enumerate(rv["ops"]):
                         if op.get("pl") and not op["pl"]["p"] and op["pl"]["l"] in whole and (lhs["l"],str(i)) not in comps:
@@ -165,6 +170,9 @@ def _component_dropped(f, p, fld):
         if t["k"]=="call":
             passthrough=t.get("callee_name") in PASS and (t.get("callee") or "").startswith(("core::","alloc::","std::"))
             for a in t["args"]:
+                apl=a.get("pl")
+                if apl and not apl["p"] and apl["l"]!=p and any(cl==apl["l"] for cl,_ci in comps):
+                    use.add(bi)     # the tuple the component is packed into is handed to a call
                 if is_comp(a.get("pl")):
                     pl=a["pl"]; deeper=[e for e in pl["p"] if isinstance(e,dict) and "f" in e]
                     exact = (pl["l"] in whole and not deeper) or (pl["l"] not in whole and len(deeper)==1 and not (pl["l"]==p and not deeper))
